@@ -25,3 +25,20 @@ func VerifProcessEnd(coordinator bool, sig tssCommon.SignatureData) (res interfa
 		return nil, false, err
 	}
 }
+
+// VerifEndOn runs the real processEndMessage of s — as its last Run left it (coordinator flag, result channel) — with
+// one signature waiting on the end channel, and returns what reached the result channel.
+func (s *Signing) VerifEndOn(sig tssCommon.SignatureData) (res interface{}, delivered bool, err error) {
+	if s.resultChn == nil {
+		return nil, false, nil
+	}
+	endChn := make(chan tssCommon.SignatureData, 1)
+	endChn <- sig
+	err = s.processEndMessage(context.Background(), endChn)
+	select {
+	case r := <-s.resultChn:
+		return r, true, err
+	default:
+		return nil, false, err
+	}
+}
